@@ -24,7 +24,7 @@ PROBE_FLOORS = {"add_to_margined_under_spread": 30, "flip_through_zero": 30, "cl
 PROFILE = {
     "oracles": ["c01"],
     "mix": {"quote": 3, "trade": 3, "rebal": 1, "mark": 0.5, "value": 1, "advance": 0.3},
-    "p_margined": 0.5, "p_observe_every": 0.7, "p_frictionless": 0.1, "p_whole_lots": 0.2,
+    "p_margined": 0.5, "p_observe_every": 0.7, "p_frictionless": 0.1, "p_whole_lots": 0.2, "p_sizes": 0.1,
     "motifs": [(0.25, gen_acct.motif_add_margined_under_spread), (0.15, gen_acct.motif_flip),
                (0.15, gen_acct.motif_spot_multiplier), (0.1, gen_acct.motif_margin_call), (0.1, gen_acct.motif_near_close), (0.1, gen_acct.motif_one_sided_liquidation_quote), (0.12, gen_acct.motif_zero_liquidation_side)],
 }
